@@ -39,6 +39,7 @@ func NewTLexer(input string) TLexer {
 //
 // It returns false if an error happened or there are no tokens left.
 func (tl *TLexer) Next() bool {
+	verifNext()
 	if tl.readp < tl.writep-1 {
 		tl.readp++
 		return true
